@@ -189,6 +189,60 @@ fn rrsig_case(input: &Value, reals: &[RealKey]) -> Value {
     })
 }
 
+/// The signer as a machine: a caller-owned scratch buffer re-used across
+/// calls of sign_sorted_rrset_in, with failing backends and a buffer that is
+/// not empty on entry.  Per op: the octets handed to sign_raw, Ok/Err, and
+/// whether a signature made by a real key in the same situation verifies.
+fn signer_case(input: &Value, reals: &[RealKey]) -> Value {
+    let key_owner = name_of(&input["keyOwner"]);
+    let flags = input["key"]["flags"].as_u64().unwrap_or(0) as u16;
+    let (inc, exp) = (ts(&input["inc"]), ts(&input["exp"]));
+    let rk = SigningKey::new(key_owner.clone(), flags, RecKey::of_json(&input["key"]));
+    let real = reals.first().and_then(|r| {
+        let dnskey = Dnskey::new(flags, 3, r.public.algorithm(), r.public.public_key().clone()).ok()?;
+        let pair = KeyPair::from_bytes(&r.secret, &dnskey).ok()?;
+        Some((SigningKey::new(key_owner.clone(), flags,
+                              FlakyKey { inner: pair, fail_next: std::sync::Mutex::new(false) }), dnskey))
+    });
+    let mut scratch: Vec<u8> = vec![];
+    let mut scratch_real: Vec<u8> = vec![];
+    let mut steps = vec![];
+    for op in input["ops"].as_array().cloned().unwrap_or_default() {
+        if op["op"] == "scratch" {
+            scratch = bytes_of(&op["junk"]);
+            scratch_real = scratch.clone();
+            steps.push(json!({"handed": [], "ok": true, "verifies": false}));
+            continue;
+        }
+        let recs = match records_of(&op["rrs"]) {
+            Ok(r) => r,
+            Err(e) => return json!({"bad_rrs": e}),
+        };
+        let sorted: SortedRecords<SName, SData> = SortedRecords::from(recs.clone());
+        let rrset = match sorted.rrsets().next() {
+            Some(r) => r,
+            None => return json!({"bad_rrs": "empty"}),
+        };
+        let fails = op["fails"] == true;
+        *rk.raw_secret_key().fail_next.lock().unwrap() = fails;
+        let res = sign_sorted_rrset_in(&rk, &rrset, inc, exp, &mut scratch);
+        let handed = rk.raw_secret_key().take().pop().unwrap_or_default();
+        let mut verifies = false;
+        if let Some((sk, dnskey)) = &real {
+            *sk.raw_secret_key().fail_next.lock().unwrap() = fails;
+            if let Ok(rr) = sign_sorted_rrset_in(sk, &rrset, inc, exp, &mut scratch_real) {
+                let mut b: Vec<u8> = vec![];
+                let _ = rr.data().signed_data(&mut b, &mut recs.clone()[..]);
+                verifies = rr.data().verify_signed_data(dnskey, &b).is_ok();
+            }
+        } else {
+            verifies = res.is_ok();
+        }
+        steps.push(json!({"handed": jbytes(&handed), "ok": res.is_ok(), "verifies": verifies}));
+    }
+    json!({"steps": steps})
+}
+
 fn keytag_case(input: &Value) -> Value {
     let k = RecKey::of_json(&input["key"]);
     json!({"tag": k.dnskey.key_tag()})
@@ -216,6 +270,7 @@ fn main() {
     let reals = real_keys();
     run_cases(|input| match input["kind"].as_str() {
         Some("rrsig") => rrsig_case(input, &reals),
+        Some("signer") => signer_case(input, &reals),
         Some("keytag") => keytag_case(input),
         Some("ds") => ds_case(input),
         Some("nsec") => denial::nsec_case(input),
